@@ -322,7 +322,8 @@ struct Ctx<'a> {
 
 fn unknown_key(k: u8) -> raw::Key { raw::Key { type_value: 0xf0, key: vec![k] } }
 
-/// The spent output as the PSBT presents it (the library's get_utxo order: witness_utxo first).
+/// The spent output as a careless signer reads it off the PSBT: witness_utxo first, never
+/// compared with non_witness_utxo (the library's get_utxo did the same until /repo 55036e60).
 fn psbt_view_utxo(psbt: &Psbt, i: usize) -> Option<bitcoin::TxOut> {
     let a = &psbt.inputs[i];
     if let Some(w) = &a.witness_utxo {
@@ -655,6 +656,12 @@ fn monitor(cx: &Ctx, step: usize, op: &Op, before: &Psbt, after: &Psbt, res: &Re
             v("utxo-changed", format!("{} changed the utxo fields of input {}", op.kind(), j));
         }
         if !is_final(b) && is_final(a) {
+            if let Some(t) = &b.non_witness_utxo {
+                let prev = before.unsigned_tx.input[j].previous_output;
+                if t.compute_txid() != prev.txid || t.output.get(prev.vout as usize).is_none() {
+                    v("foreign-prev-tx-finalized", format!("{} finalized input {} although its non_witness_utxo is not the transaction the outpoint names (or lacks that output)", op.kind(), j));
+                }
+            }
             if !finalizer_op {
                 v("final-by-adder", format!("{} made input {} final", op.kind(), j));
             }
@@ -704,14 +711,15 @@ fn monitor(cx: &Ctx, step: usize, op: &Op, before: &Psbt, after: &Psbt, res: &Re
                 if *i >= n || before.inputs[*i] != after.inputs[*i] {
                     v("failmut-mutated", format!("finalize_mut reported input {} as failed but changed it", i));
                 }
-                if *i < n && is_final(&before.inputs[*i]) {
+                if *i < n && is_final(&before.inputs[*i]) && utxo_inconsistent(before, *i).is_none() {
                     v("final-reported-failed", format!("finalize_mut reported the already final input {} as failed", i));
                 }
             }
-            for j in 0..n {
-                if !is_final(&after.inputs[j]) && !es.iter().any(|(i, _)| *i == j) {
-                    v("silent-failure", format!("finalize_mut left input {} unfinalized without reporting an error", j));
-                }
+            // one error per input that was tried and not finalized (the indices inside the errors are
+            // the library's: `prevouts` names the first input whose utxo cannot be found)
+            let failed = (0..n).filter(|j| !is_final(&before.inputs[*j]) && !is_final(&after.inputs[*j])).count();
+            if failed != es.len() {
+                v("silent-failure", format!("finalize_mut left {} input(s) unfinalized but reported {} error(s)", failed, es.len()));
             }
         }
         (Op::Finalize { .. }, Res::Ok) => {
@@ -1608,6 +1616,42 @@ pub fn run(args: &[String]) {
                         ops.extend(tail.clone());
                         run_history(&cx, &g, &ops, &format!("utxo-pipeline:{}", gen::UTXO_VARIANTS[variant]), hid, cid, &mut int, &mut lines, &mut st);
                         hid += 1;
+                        // with signatures over the REAL prevout (a careful signer / sighash_msg): the
+                        // amount- and script-lies are then harmless, a foreign previous transaction or a
+                        // missing output must still stop finalization (MissingUtxo)
+                        if variant >= 1 {
+                            let mut real: Vec<Op> = (0..m.ecdsa_sigs.len()).map(|k| Op::Sig { i: j, key: k, variant: 0 }).collect();
+                            if m.tap_key_sig.is_some() {
+                                real.push(Op::TapKeySig { i: j, bad: false });
+                            }
+                            for kind in &m.uses_hash {
+                                real.push(Op::Preimage { i: j, kind: *kind, wrong: false });
+                            }
+                            let mut ops = vec![Op::Update { i: j, d: j }];
+                            ops.extend(real);
+                            ops.extend(tail.clone());
+                            run_history(&cx, &g, &ops, &format!("utxo-realsig:{}", gen::UTXO_VARIANTS[variant]), hid, cid, &mut int, &mut lines, &mut st);
+                            hid += 1;
+                        }
+                        // sighash_msg goes through get_utxo: with the genuine previous transaction present
+                        // it must commit to the real prevout, whatever witness_utxo says
+                        if variant == 1 || variant == 2 {
+                            let mut cache = SighashCache::new(&g.unsigned_tx);
+                            if let Ok(x) = g.sighash_msg(j, &mut cache, None) {
+                                let want = if m.tap.is_some() { m.tap_key_msg } else { m.ecdsa_msg };
+                                if Some(x.to_secp_msg()) != want {
+                                    lines.push(
+                                        J::obj(vec![
+                                            ("t", J::s("probe-viol")),
+                                            ("case", J::N(cid as i64)),
+                                            ("key", J::s("sighash-msg-wrong-utxo")),
+                                            ("what", J::S(format!("sighash_msg for input {} ({}) with both utxo fields ({}) does not commit to the output the outpoint references", j, m.template, gen::UTXO_VARIANTS[variant]))),
+                                        ])
+                                        .to_string(),
+                                    );
+                                }
+                            }
+                        }
                         // and without it (the finalizer alone)
                         if ini == 0 && variant <= 1 {
                             let mut ops = signing.clone();
